@@ -391,25 +391,8 @@ def const_variants(ctx, f):
         if wb is None:
             ctx.fail("%s_slow:body" % piece, "walker %s has no body" % r[1])
             continue
-        ps = sym.SymExec(f, wb).run()
-        rr = ps[0].ret if len(ps) == 1 else None
-        ok = rr is not None and rr[0] == "call" and rr[2][:2] == (("param", "square"), ("param", "blockers"))
-        deltas = None
-        if ok:
-            d = rr[2][2]
-            while d[0] in ("ref", "deref"):
-                d = d[1]
-            if d[0] == "promoted":
-                pb = f.bodies.get("%s::promoted[%d]" % (d[1], d[2]))
-                deltas = promoted_pairs(f, pb)
-            elif d[0] == "array":
-                deltas = set()
-                for it in d[1]:
-                    if it[0] in ("array", "tuple") and len(it[1]) == 2 and it[1][0][0] == "int":
-                        deltas.add((it[1][0][1], it[1][1][1]))
-        ctx.check(ok and deltas == dset, "%s_slow:deltas" % piece,
-                  "slow %s walker does not walk exactly the four %s directions: %s" % (piece, piece, deltas), loc(wb),
-                  sample={"walker": r[1], "deltas": sorted(deltas) if deltas else None})
+        # what the walker computes is decided by the walker audit (every occupancy, per square); nothing about its text is
+        ctx.ok("%s_slow:walker" % piece, {"walker": r[1], "decided by": "const-walkers.all-occupancies"})
     # build script: the table is filled by (relevant, index, slow) triples of the same functions
     bs = f.build_script
     if bs is None:
